@@ -399,7 +399,21 @@ func (r *Run) Parallel(phase string, n int, body func(shard, n int)) {
 type CrashClassifier func(caseJSON string, stderrTail string) (class string, msg string)
 
 func (r *Run) ParallelC(phase string, n int, body func(shard, n int), classify CrashClassifier) {
-	if r.Replay != "" || os.Getenv("VERIF_NOFORK") != "" {
+	r.parallel("", phase, n, body, classify)
+}
+
+// ParallelExe is Parallel with the workers running another build of the same
+// group (e.g. the -tags 5BytesOffset twin, path in env VERIF_BIN_<group>): the
+// same check code runs there and executes the body of this phase.
+func (r *Run) ParallelExe(exe, phase string, n int, body func(shard, n int)) {
+	if exe == "" {
+		Fatal("ParallelExe: no binary for phase %s (VERIF_BIN_<group> not set; run through ./v)", phase)
+	}
+	r.parallel(exe, phase, n, body, nil)
+}
+
+func (r *Run) parallel(otherExe, phase string, n int, body func(shard, n int), classify CrashClassifier) {
+	if (r.Replay != "" || os.Getenv("VERIF_NOFORK") != "") && otherExe == "" {
 		for s := 0; s < n; s++ {
 			body(s, n)
 		}
@@ -444,6 +458,9 @@ func (r *Run) ParallelC(phase string, n int, body func(shard, n int), classify C
 	}
 	defer os.RemoveAll(tmp)
 	exe, _ := os.Executable()
+	if otherExe != "" {
+		exe = otherExe
+	}
 	sem := make(chan struct{}, 16)
 	var wg sync.WaitGroup
 	for s := 0; s < n; s++ {
